@@ -34,6 +34,7 @@ def clean():
 def main():
     out = sys.argv[1]
     name = sys.argv[2]
+    suffix = sys.argv[sys.argv.index('--suffix') + 1] if '--suffix' in sys.argv else ''
     meta = json.load(open(os.path.join(out, name + '.meta.json')))
     prop = meta['property']
     if not os.path.isdir(WT):
@@ -42,7 +43,7 @@ def main():
     head = subprocess.run(['git', '-C', '/repo', 'rev-parse', '--short', 'HEAD'], capture_output=True, text=True).stdout.strip()
     sh('git checkout -q --detach ' + head)
     rec = {'property': prop, 'name': name, 'repo_head': head, 'steps': []}
-    demo_cmd = re.sub(r'CARGO_TARGET_DIR=\S+\s*', '', meta['demo_cmd']).replace('/tmp/seed/%s' % prop, WT)
+    demo_cmd = re.sub(r'CARGO_TARGET_DIR=\S+\s*', '', meta['demo_cmd']).replace('/tmp/seed2/%s' % prop, WT).replace('/tmp/seed/%s' % prop, WT)
     demo_cmd = re.sub(r'^cd \S+ && ', '', demo_cmd)
     rec['demo_cmd'] = demo_cmd
     ok = True
@@ -86,7 +87,7 @@ def main():
         m = re.search(r'SUMMARY \S+ (.*)$', r.stdout, re.M)
         alarms = m.group(1) if m else '?'
         rec['checks_alarm'] = alarms
-        dst = os.path.join(V, 'seeded', '%s-%s' % (prop, name))
+        dst = os.path.join(V, 'seeded', '%s-%s%s' % (prop, name, suffix))
         os.makedirs(dst, exist_ok=True)
         shutil.copy(os.path.join(out, name + '.patch.diff'), os.path.join(dst, 'patch.diff'))
         shutil.copy(os.path.join(out, name + '.demo.diff'), os.path.join(dst, 'demo.diff'))
